@@ -17,8 +17,9 @@ def parse_line(line):
 class Gen:
     """random program: a forest of scripted coroutines + a driver script"""
 
-    def __init__(self, rng, max_depth, width, next_):
+    def __init__(self, rng, max_depth, width, next_, ty="int"):
         self.rng = rng
+        self.ty = ty
         self.max_depth = max_depth
         self.width = width
         self.next = next_
@@ -54,18 +55,19 @@ class Gen:
         if r < 0.2:
             acts.append("t" + str(rng.randint(1, 9)))
         elif r < 0.75:
-            acts.append("v" + str(rng.randint(0, 50)))
+            # pk (result construction can throw): the operand of co_return is converted (v) or copied (k) inside the bound future
+            acts.append(("k" if self.ty == "pk" and rng.random() < 0.4 else "v") + str(rng.randint(0, 50)))
         self.scripts[me] = acts
         return me
 
 
 def gen_case(rng, deep=False):
-    ty = rng.choice(["int", "int", "void", "mo", "ref", "ref"])
+    ty = rng.choice(["int", "int", "void", "mo", "ref", "ref", "pk", "pk"])
     next_ = rng.choice([0, 1, 2, 2, 3, 4])
     if deep:
-        g = Gen(rng, rng.choice([12, 20, 30]), 2, next_)
+        g = Gen(rng, rng.choice([12, 20, 30]), 2, next_, ty)
     else:
-        g = Gen(rng, rng.choice([0, 1, 2, 3, 4, 6]), rng.choice([2, 3, 5]), next_)
+        g = Gen(rng, rng.choice([0, 1, 2, 3, 4, 6]), rng.choice([2, 3, 5]), next_, ty)
     ops = []
     claimed = set()     # generator's view (approximate; only used for biasing)
     nroots = rng.randint(1, 2) if deep else rng.randint(1, 5)
@@ -197,6 +199,14 @@ class AsyncSuite(Suite):
     def stats(self, cases, outs):
         ops, acts, types, depth_hist = {}, {}, {}, {}
         suspended = other_thread = exc_results = val_results = 0
+        # result type pk: exceptions thrown by the construction of the result value at co_return (codes 20-22 converting,
+        # 30-32 copy; no other source uses these codes) - where they were thrown and which kind of bound party received them
+        ctor_thrown = {"converting": 0, "copy": 0, "after_suspension": 0}
+        ctor_seen = {"join": 0, "future(start/fut/fcoro/pool)": 0, "start(promise)": 0, "co_await": 0, "operation_callback": 0}
+        ctor_detached_unconstructed = 0
+
+        def is_ctor(o):
+            return o.startswith("exc:") and o[4:].isdigit() and 20 <= int(o[4:]) <= 32
         for c in cases:
             hdr = c["lines"][0].split()
             if len(hdr) > 3:
@@ -230,8 +240,43 @@ class AsyncSuite(Suite):
             depth_hist[b] = depth_hist.get(b, 0) + 1
             o = outs.get(str(c["id"]), [])
             began = {}
+            pk = len(hdr) > 3 and hdr[3] == "pk"
             for n, l in enumerate(o):
-                for e in parse_line(l)[1]:
+                hd, evl = parse_line(l)
+                if pk:
+                    if len(hd) > 1 and hd[0] == "join" and is_ctor(hd[1]):
+                        ctor_seen["join"] += 1
+                    for e in evl:
+                        k, _, v = e.partition("=")
+                        if not is_ctor(v):
+                            if k[:1] == "r" and v.startswith("v:") and v[2:].isdigit() and sc.get(int(k[1:])) is not None:
+                                last = (sc[int(k[1:])] or ["v"])[-1][0]
+                                vv = int(v[2:])
+                                if (last == "k" and vv % 4 == 2) or (last != "k" and vv % 4 == 1):
+                                    ctor_detached_unconstructed += 1   # operand of a throwing class, nothing constructed: detached
+                            continue
+                        if k[:1] == "F":
+                            ctor_seen["future(start/fut/fcoro/pool)"] += 1
+                        elif k[:1] == "X":
+                            ctor_seen["start(promise)"] += 1
+                        elif k[:1] == "O":
+                            ctor_seen["operation_callback"] += 1
+                        elif k[:1] == "s" and ":c" in k:
+                            ctor_seen["co_await"] += 1
+                        elif k[:1] == "r" and k[1:].isdigit():
+                            acts_i = sc.get(int(k[1:]), [])
+                            last = acts_i[-1][0] if acts_i else "v"
+                            code = int(v[4:])
+                            # (an uncaught exception of the same class propagated from an awaited child is counted too)
+                            if code >= 30 and last == "k":
+                                ctor_thrown["copy"] += 1
+                            elif code < 30 and last != "k":
+                                ctor_thrown["converting"] += 1
+                            else:
+                                continue
+                            if began.get(k[1:], n) < n:
+                                ctor_thrown["after_suspension"] += 1
+                for e in evl:
                     m = re.match(r"b(\d+)$", e)
                     if m:
                         began[m.group(1)] = n
@@ -245,7 +290,10 @@ class AsyncSuite(Suite):
                             suspended += 1
         return {"driver_ops": ops, "script_acts": acts, "result_types": types, "max_nesting_depth": depth_hist,
                 "coroutines_completed_after_suspension": suspended, "ops_involving_second_thread": other_thread,
-                "bodies_ended_by_value": val_results, "bodies_ended_by_exception": exc_results}
+                "bodies_ended_by_value": val_results, "bodies_ended_by_exception": exc_results,
+                "result_construction_threw_at_co_return(upper bound: includes uncaught propagation with the same class)": ctor_thrown,
+                "result_construction_exception_received_by": ctor_seen,
+                "throwing_operand_but_detached_so_nothing_constructed": ctor_detached_unconstructed}
 
     # ---------------------------------------------------------------------------------------
     def oracle(self, case, out):
@@ -727,7 +775,8 @@ class C04(Spec):
                     "awaiter chain subscribe/resolve atomicity (C03) and the order in which the executor runs ready coroutines (C05) taken as specified"]
     technique = "Lean 4 invariant proof (induction over all schedules of all scripted programs) + differential correspondence with the real headers"
     level_text = ("Lean 4 theorems over an executable model of the async<T> life cycle (every start mode, co_await chains of any depth, "
-                  "value/exception/cancellation, final_awaiter) quantified over all programs and all schedules (operation lists); "
+                  "value/exception/cancellation, result types whose construction at co_return can throw, final_awaiter) quantified over "
+                  "all programs, all result-constructor behaviours and all schedules (operation lists); "
                   "the model is tied to async.h/future.h by running generated programs through the real headers (ASan/UBSan, counting "
                   "frame storage, RAII guards) and through the model and diffing every line; property oracles run on the implementation trace")
     level_note = ("trusted: Lean kernel (axioms propext/Classical.choice/Quot.sound at most), the hand-written model, the differential "
